@@ -51,6 +51,43 @@ func (vt *v2T) scenC02() {
 			xs = append(xs, append(append(v2EnsureNL(vt.editWords(c, d.Data, 0.03)), vt.oovBlock(c, 2)...), o.Data...))
 		}
 	}
+	// a text whose closing words are cut off, followed on the next lines by a partial repeat of its last sentence: the
+	// candidate range runs on into the repeat and score() trims it off again (a non-zero end offset, on a later line)
+	nst := 0
+	for _, i := range vt.rng.Perm(len(docs)) {
+		d := docs[i]
+		w := strings.Fields(string(d.Data))
+		if len(d.Data) > 2500 || len(w) < 60 || nst >= 8 {
+			continue
+		}
+		lines := strings.Split(strings.TrimRight(string(d.Data), "\n"), "\n")
+		last := strings.Fields(lines[len(lines)-1])
+		if len(last) < 7 {
+			continue
+		}
+		body := strings.Join(lines[:len(lines)-1], "\n") + "\n" + strings.Join(last[:len(last)-4], " ")
+		tail := w[len(w)-14 : len(w)-4]
+		xs = append(xs, []byte(body+"\n"+strings.Join(tail[:6], " ")+"\n"+strings.Join(tail[6:8], " ")+"\n"+strings.Join(tail[4:9], " ")+"\n"))
+		nst++
+	}
+	// one instance of that shape that is known to reach the trimming path (MIT in plain words, its closing words replaced by
+	// a stutter of the sentence before them)
+	xs = append(xs, []byte(strings.Join([]string{
+		"permission is hereby granted free of charge to any person obtaining a copy",
+		"of this software and associated documentation files the software to deal",
+		"in the software without restriction including without limitation the rights",
+		"to use copy modify merge publish distribute sublicense andor sell",
+		"copies of the software and to permit persons to whom the software is",
+		"furnished to do so subject to the following conditions", "",
+		"the above copyright notice and this permission notice shall be included in all",
+		"copies or substantial portions of the software", "",
+		"the software is provided as is without warranty of any kind express or",
+		"implied including but not limited to the warranties of merchantability",
+		"fitness for a particular purpose and noninfringement in no event shall the",
+		"authors or copyright holders be liable for any claim damages or other",
+		"liability whether in an action of contract tort or otherwise arising from",
+		"out of or in connection with the software or the use",
+		"arising from out of or in connection with", "the software", "or the use or"}, "\n")+"\n"))
 	ns := 6
 	if vt.thorough() {
 		ns = len(names)
@@ -672,6 +709,45 @@ func (vt *v2T) scenC10() {
 			}
 			vt.reset(false)
 		}
+	}
+	// the boundary to the diff library: (a) a comparison so large that go-diff runs into its deadline and answers "delete
+	// everything, insert everything" -- at threshold 0 even that is a candidate; (b) more distinct words than there are
+	// code points below the surrogates, with the word whose id is 10 (a line feed, as a rune) after every one of them
+	{
+		big := NewClassifier(0)
+		bc := &v2C{"c10_deadline", big, 0}
+		vt.emit(map[string]interface{}{"ev": "new", "c": bc.id})
+		vt.add(bc, v2Doc{Key: "License/Lorem/license.txt", Cat: "License", Name: "Lorem", Variant: "license.txt",
+			Data: []byte("preamble anchorone " + strings.Repeat("lorem ", 250000) + "anchortwo postamble\n")})
+		vt.match(bc, []byte("anchorone "+strings.Repeat("ipsum ", 250000)+"anchortwo\n"), v2MatchOpts{})
+		vt.reset(false)
+		many := NewClassifier(0.8)
+		mc := &v2C{"c10_manywords", many, 0.8}
+		vt.emit(map[string]interface{}{"ev": "new", "c": mc.id})
+		var sb strings.Builder
+		word := func(i int) string {
+			return fmt.Sprintf("mw%c%c%c%c", 'a'+i%26, 'a'+(i/26)%26, 'a'+(i/676)%26, 'a'+(i/17576)%26)
+		}
+		for i := 0; i < 9; i++ {
+			sb.WriteString(word(i) + " ")
+		}
+		sb.WriteString("sep\n")
+		for i := 9; i < 60000; i++ {
+			sb.WriteString(word(i) + " sep")
+			if i%6 == 5 {
+				sb.WriteByte('\n')
+			} else {
+				sb.WriteByte(' ')
+			}
+		}
+		doc := sb.String()
+		vt.add(mc, v2Doc{Key: "License/Many/license.txt", Cat: "License", Name: "Many", Variant: "license.txt", Data: []byte(doc)})
+		in := doc
+		for _, i := range []int{1000, 20000, 33333, 50000, 59000} {
+			in = strings.Replace(in, " "+word(i)+" ", " zzqxvaa ", 1)
+		}
+		vt.match(mc, []byte(in), v2MatchOpts{})
+		vt.reset(false)
 	}
 	// the full corpus at the default threshold
 	full := vt.build("c10_full", 0.8, docs)
